@@ -196,6 +196,9 @@ pub fn custom_op(sh: &Rc<Shared>, uid: usize, kind: &CustomKind, coef: &[f64], s
             }
         };
         if let Some(s) = &sh {
+            if s.log.borrow().len() > 2_000_000 {
+                panic!("corgi_verif: step budget (user closure log) exceeded");
+            }
             s.log.borrow_mut().push(Invocation {
                 uid,
                 seq,
